@@ -208,8 +208,8 @@ func (s *PrecompileTestSuite) TestVerifReplayDistributionPrecompile() {
 	var firstKnown *dpOut
 	unknown := false
 	for _, sc := range scenarios {
-		if req.Property != "" && (req.Property == "C05") != sc.Revert {
-			continue // frame-revert scenarios test C05, the others C02
+		if req.Property != "" && !((req.Property == "C05" && sc.Revert) || (req.Property == "C02" && !sc.Revert)) {
+			continue // frame-revert scenarios test C05, the others C02; no scenario speaks about another property
 		}
 		out.Cases++
 		bad := s.dpRun(sc)
